@@ -148,10 +148,10 @@ def _iter_ident(M, fr, n, a):
     if isinstance(a[0], Agg) and a[0].name == '[]': return IterV(list(a[0].f))
     if isinstance(a[0], (IterV, Agg)): return a[0]
     raise Unsupported('into_iter of %r' % (a[0],))
-@reg(r'^core::slice::<impl \[.*\]>::first$')
+@reg(r'^core::slice::<impl \[.*\]>::(first|first_mut)$')
 def _first(M, fr, n, a):
     rs = elem_refs(M, a[0]); return some(rs[0]) if rs else none()
-@reg(r'^core::slice::<impl \[.*\]>::last$')
+@reg(r'^core::slice::<impl \[.*\]>::(last|last_mut)$')
 def _last(M, fr, n, a):
     rs = elem_refs(M, a[0]); return some(rs[-1]) if rs else none()
 @reg(r'^core::slice::<impl \[.*\]>::get$|^std::collections::VecDeque::get$')
